@@ -386,6 +386,11 @@ func (p *program) parseArgs(args []string) error {
 		return err
 	}
 
+	if p.concurrency < 1 {
+		// Zero would block forever on the checker semaphore, a negative value panics in make.
+		return fmt.Errorf("-concurrency must be at least 1, got %d", p.concurrency)
+	}
+
 	p.packages = p.flagSet.Args()
 	p.filters.enable = splitList(*enable)
 	p.filters.disable = splitList(*disable)
